@@ -505,4 +505,14 @@ MUTANTS += [
      "desc": "create_or_get_logger(name, source_logger) copies the sinks but not the pattern options",
      "old": "return create_or_get_logger<TLogger>(logger_name, source_logger->sinks, source_logger->pattern_formatter_options,",
      "new": "return create_or_get_logger<TLogger>(logger_name, source_logger->sinks, PatternFormatterOptions{},"},
+    {"id": "c06-immediate-flush-skipped", "props": ["C06"], "file": "quill/Logger.h",
+     "desc": "log_statement<immediate_flush> returns without flushing",
+     "old": """    if constexpr (immediate_flush)
+    {
+      this->flush_log();
+    }""",
+     "new": """    if constexpr (immediate_flush && false)
+    {
+      this->flush_log();
+    }"""},
 ]
